@@ -15,14 +15,13 @@
 (* Field products use Mul of GF2m.tla; TableTrace.tla (C14 run) checks     *)
 (* Mul = MulDef for every pair of both fields.                             *)
 (***************************************************************************)
-EXTENDS Naturals, Integers, Sequences, FiniteSets, SequencesExt, FiniteSetsExt, Bitwise, GF2m
+EXTENDS Naturals, Integers, Sequences, FiniteSets, SequencesExt, FiniteSetsExt, Bitwise, GF2m, TLC
 
 KernelName == <<"xor1", "xfrom", "xto", "rsmul", "m8mul", "m4mul", "m4cmp">>     \* KernelName[kid + 1]
 
-(* Tup(n, F) is the sequence << F(1), ..., F(n) >>.  It is the same value as
-   [ i \in 1 .. n |-> F(i) ], written as a fold so that TLC builds the tuple once instead
-   of re-evaluating F at every later application (the trace spec compares whole sequences). *)
-Tup(n, F(_)) == FoldLeft(LAMBDA acc, i : Append(acc, F(i)), << >>, [ i \in 1 .. n |-> i ])
+(* Tup(n, F) is the sequence << F(1), ..., F(n) >>, i.e. [ i \in 1 .. n |-> F(i) ], evaluated eagerly so that TLC
+   builds it once instead of re-evaluating F at every later application (the trace spec compares whole sequences). *)
+Tup(n, F(_)) == TLCEval([ i \in 1 .. n |-> F(i) ])       \* forced: built once, in linear time (symbols of thousands of bytes)
 
 (* ------------------------------------------------ byte-wise definitions *)
 XorSym(d, s) == Tup(Len(d), LAMBDA i : d[i] ^^ s[i])
@@ -36,8 +35,11 @@ AddMulCompact(d, s, c) ==
 
 (* ------------------------------------------------------ operand contents *)
 (* byte i (0-based) of operand j; sources are operands 0 .. n-1, destinations 32, 33, ... *)
+(* patterns 0 and 1 have period 256 in i; pattern 2 (long symbols) does not repeat at any power of two, so that data
+   taken from the wrong 256-byte, 4096-byte ... block is visible *)
 Byte(p, i, j) == IF p = 0 THEN (37 * i + 11 * j + 5) % 256
-                 ELSE ((i + 1) * (j + 3) * 167 + i * i * 13 + 91) % 256
+                 ELSE IF p = 1 THEN ((i + 1) * (j + 3) * 167 + i * i * 13 + 91) % 256
+                 ELSE (37 * i + 29 * (i \div 251) + 11 * j + 5) % 256
 Content(kid, p, i, j) == IF kid = 5 THEN Byte(p, i, j) % 16 ELSE Byte(p, i, j)
 Sym(kid, p, j, sz) == Tup(sz, LAMBDA i : Content(kid, p, i - 1, j))
 
@@ -88,12 +90,23 @@ ConstB(tier, kid) == IF FieldBits(kid) = 8 THEN (IF tier = "q" THEN {2, 3, 29, 8
 SizesB(tier) == IF tier = "q" THEN {0, 1, 15, 16, 17, 33, 40}
                 ELSE 0 .. 80
 
+(* "every size from 0 upwards": beyond the dense range, sizes around the powers of two at which an implementation
+   may change regime (cache-sized chunks, pages, 16-bit counters), with a few operand counts on both sides of the
+   unrolling factors, one pattern, one non-trivial constant and three alignments *)
+SizesBig(tier) == IF tier = "q" THEN {255, 256, 257, 1024, 4095, 4096, 4097, 8197}
+                  ELSE {127, 128, 129, 255, 256, 257, 1023, 1024, 1025, 2048, 4095, 4096, 4097, 8191, 8192, 8193, 12288, 16385}
+CountsBig(tier) == IF tier = "q" THEN {2, 9, 17} ELSE {1, 2, 3, 8, 9, 11, 16, 17}
+ConstBig(kid) == IF FieldBits(kid) = 8 THEN 142 ELSE 9
+IsBig(tier, sz) == sz > MaxSize(tier)
+
 GroupSet(tier, kid) ==
     LET L == MaxSize(tier)  N == MaxCount(tier)
-    IN  IF kid = 0 THEN { <<sz, 1, p, 0>> : sz \in 0 .. L, p \in 0 .. 1 }
+    IN  IF kid = 0 THEN { <<sz, 1, p, 0>> : sz \in 0 .. L, p \in 0 .. 1 } \cup { <<sz, 1, 2, 0>> : sz \in SizesBig(tier) }
         ELSE IF kid \in {1, 2} THEN { <<sz, n, p, 0>> : sz \in 0 .. L, n \in 0 .. N, p \in 0 .. 1 }
+                                    \cup { <<sz, n, 2, 0>> : sz \in SizesBig(tier), n \in CountsBig(tier) }
         ELSE { <<sz, 1, p, c>> : sz \in 0 .. L, p \in 0 .. 1, c \in ConstA(tier, kid) }
              \cup { <<sz, 1, 0, c>> : sz \in SizesB(tier), c \in ConstB(tier, kid) \ ConstA(tier, kid) }
+             \cup { <<sz, 1, 2, ConstBig(kid)>> : sz \in SizesBig(tier) }
 
 Rank(g) == ((g[1] * 32 + g[2]) * 2 + g[3]) * 256 + g[4]
 
@@ -102,13 +115,15 @@ AlAll(nb) == Tup(8 ^ nb, LAMBDA k : Tup(nb, LAMBDA b : ((k - 1) \div (8 ^ (nb - 
 AlUniform(nb) == Tup(8, LAMBDA k : Tup(nb, LAMBDA b : k - 1))
 AlStagger(nb) == Tup(8, LAMBDA k : Tup(nb, LAMBDA b : (k - 1 + b - 1) % 8))
 AlJoint(nb) == AlUniform(nb) \o AlStagger(nb)
+AlBig(nb) == << Tup(nb, LAMBDA b : 0), Tup(nb, LAMBDA b : 1), Tup(nb, LAMBDA b : (5 + b - 1) % 8) >>
 
 (* every operand independently for up to 3 buffers (operand counts <= 2), jointly otherwise;
    the sweep over the constants of ConstB \ ConstA uses the joint vectors (8 uniform + 8 staggered) and,
    in tier "q", pattern 1 uses the 8 uniform vectors only *)
-AlSeq(tier, kid, n, p, c) ==
+AlSeq(tier, kid, sz, n, p, c) ==
     LET nb == NBuf(kid, n)
-    IN  IF p = 1 /\ tier = "q" THEN AlUniform(nb)
+    IN  IF IsBig(tier, sz) THEN AlBig(nb)
+        ELSE IF p = 1 /\ tier = "q" THEN AlUniform(nb)
         ELSE IF kid >= 3 /\ c \notin ConstA(tier, kid) THEN AlJoint(nb)
         ELSE IF nb <= 3 THEN AlAll(nb)
         ELSE AlJoint(nb)
